@@ -225,3 +225,90 @@ def run_commit_last(chk, unit, rex, rule="R-COMMIT-LAST", floor=5):
                       "registered although the rest of the operation did not happen" % (" ".join(fn.text(bad[0]).split())[:60] if bad else "", fn.line_of(bad[1]) if bad else 0),
                key="commitlast|%s" % fn.name.replace("asmjit::", ""))
     chk.floor(rule + ":commit-sites", n, floor)
+
+
+def run_arena_reset(chk, unit="asmjit/core/codeholder.cpp", rex=r"asmjit::CodeHolder::[a-z_0-9]+$|asmjit::CodeHolder_[A-Za-z_0-9]+$"):
+    """R-ARENA-RESET-AFTER-CONTAINERS: no container keeps storage of an arena that is reset"""
+    R = "R-ARENA-RESET-AFTER-CONTAINERS"
+    chk.rule(R, "CodeHolder: where `_arena.reset()` is called, every arena container member that may have received storage earlier on the path "
+                "(directly, or in a unit helper called with the holder: reserve* / append / insert / resize with the arena) has been reset "
+                "before: otherwise the container's data pointer outlives the arena block it points into")
+    f = chk.facts(unit, funcs=rex)
+    fns = load_functions_(f)
+    by = {}
+    for g in fns:
+        by.setdefault(g.name, []).append(g)
+    GROW = re.compile(r"^(reserve|reserve_additional|reserve_fit|reserve_grow|append|insert|prepend|resize|resize_fit|resize_grow|grow)$")
+
+    def member_of(g, obj):
+        t = re.sub(r"\s+", "", g.text(obj))
+        m = re.match(r"^(?:this->|self->)?(_[a-z_0-9]+)$", t)
+        return m.group(1) if m else None
+
+    def grows(g, depth=0):
+        """members of the holder that g may give arena storage to"""
+        out = set()
+        for i, x in g.calls(lambda x: x["k"] == "mcall" and GROW.match(x.get("cn") or "") and x.get("obj") and x.get("args")):
+            if "_arena" in g.text(x["args"][0]):
+                m = member_of(g, x["obj"])
+                if m:
+                    out.add(m)
+        return out
+    n = 0
+    for g in fns:
+        if not g.file.endswith(unit.split("/")[-1]):
+            continue
+        resets = [i for i, x in g.calls(lambda x: x["k"] == "mcall" and x.get("cn") == "reset" and x.get("obj") and member_of(g, x["obj"]) == "_arena")]
+        if not resets:
+            continue
+
+        def transfer(b, st, g=g):
+            st = set(st)
+            for el in g.blocks[b]["elems"]:
+                if not isinstance(el, int):
+                    continue
+                x = g.e(el)
+                if x is None:
+                    continue
+                if x["k"] == "mcall" and x.get("obj"):
+                    m = member_of(g, x["obj"])
+                    if m and GROW.match(x.get("cn") or "") and x.get("args") and "_arena" in g.text(x["args"][0]):
+                        st.add(m)
+                    elif m and x.get("cn") == "reset":
+                        st.discard(m)
+                elif x["k"] == "call":
+                    for h in by.get(x.get("callee") or "", []):
+                        if h is not g:
+                            st |= grows(h)
+            return frozenset(st)
+        IN, OUT = forward(g, frozenset(), transfer, lambda ss: frozenset().union(*ss))
+        pos = g.block_of()
+        for r in resets:
+            if r not in pos:
+                continue
+            b, idx = pos[r]
+            st = set(IN.get(b, frozenset()))
+            for el in g.blocks[b]["elems"][:idx]:
+                if isinstance(el, int):
+                    x = g.e(el)
+                    if x and x["k"] == "mcall" and x.get("obj"):
+                        m = member_of(g, x["obj"])
+                        if m and GROW.match(x.get("cn") or "") and x.get("args") and "_arena" in g.text(x["args"][0]):
+                            st.add(m)
+                        elif m and x.get("cn") == "reset":
+                            st.discard(m)
+                    elif x and x["k"] == "call":
+                        for h in by.get(x.get("callee") or "", []):
+                            if h is not g:
+                                st |= grows(h)
+            n += 1
+            short = g.name.replace("asmjit::", "")
+            chk.ob(R, "%s|_arena.reset@%d" % (short, g.line_of(r) - g.line), not st, loc=g.loc(r),
+                   detail="`_arena.reset()` runs while %s may still hold storage allocated from the arena on this path" % ", ".join(sorted(st)),
+                   key="arenareset|%s" % short)
+    chk.floor(R + ":resets", n, 2)
+
+
+def load_functions_(f):
+    from .cfg import load_functions
+    return load_functions(f)
